@@ -277,3 +277,82 @@ Section Top.
     - destruct H as (EK & _). split; [|reflexivity]. intros _. eauto.
   Qed.
 End Top.
+
+(* ---------- the payload type of an accepted envelope is in the file ---------- *)
+
+Lemma find_field_in fs k f : find_field fs k = Some f -> In f fs.
+Proof.
+  unfold find_field. destruct (find (fun f0 => str_eqb k (f_name f0)) fs) eqn:E.
+  - intro H. inversion H. subst. apply find_some in E. apply E.
+  - intro H. apply find_some in H. apply H.
+Qed.
+
+Lemma alookup_aset_some {V} (m : list (str * V)) k v x : alookup (aset m k v) k = Some x -> x = v.
+Proof.
+  induction m as [|[k' v'] m IH]; simpl; [discriminate|].
+  destruct (str_eqb k k') eqn:E; simpl; rewrite E; [intro H; inversion H; reflexivity | apply IH].
+Qed.
+
+Lemma alookup_aset_some_in {V} (m : list (str * V)) k v x : alookup (aset m k v) k = Some x -> exists o, alookup m k = Some o.
+Proof.
+  induction m as [|[k' v'] m IH]; simpl; [discriminate|].
+  destruct (str_eqb k k') eqn:E; simpl; rewrite E; [eauto | apply IH].
+Qed.
+
+(* a string field ends up with the value [s] only if it had it before or a member
+   matched to that field carries the JSON string [s] *)
+Lemma decode_members_string strict fs n s : 
+  (forall f, In f fs -> f_name f = n -> f_shape f = SStr) ->
+  forall m cur cur', decode_members strict fs m cur = Ok cur' ->
+  alookup cur' n = Some (GStr s) ->
+  alookup cur n = Some (GStr s) \/ exists k f, In (k, JStr s) m /\ find_field fs k = Some f /\ f_name f = n.
+Proof.
+  intros HS. induction m as [|[k x] m IH]; intros cur cur' HD HL; simpl in HD.
+  - inversion HD. subst. left. assumption.
+  - destruct (find_field fs k) as [f|] eqn:EF.
+    + destruct (decode strict (f_shape f) (match alookup cur (f_name f) with Some o => o | None => gzero (f_shape f) end) x)
+        as [v| |] eqn:ED; try discriminate.
+      cbn [rbind] in HD.
+      destruct (IH _ _ HD HL) as [H|(k2 & f2 & Hi & Hf & Hn)].
+      * destruct (str_eq_dec (f_name f) n) as [E|E].
+        -- subst n. pose proof (HS f (find_field_in _ _ _ EF) eq_refl) as ES. rewrite ES in ED.
+           pose proof (alookup_aset_some _ _ _ _ H) as Ev. subst v.
+           destruct (alookup_aset_some_in _ _ _ _ H) as [o Ho]. rewrite Ho in ED.
+           destruct x; try discriminate.
+           ++ unfold decode in ED. inversion ED. subst o. left. assumption.
+           ++ unfold decode in ED. inversion ED. subst. right. exists k, f. split; [left; reflexivity | auto].
+        -- rewrite alookup_aset_other in H by congruence. left. assumption.
+      * right. exists k2, f2. split; [right; assumption | auto].
+    + destruct strict; [discriminate|].
+      destruct (IH _ _ HD HL) as [H|(k2 & f2 & Hi & Hf & Hn)]; [left; assumption|].
+      right. exists k2, f2. split; [right; assumption | auto].
+Qed.
+
+(* an accepted envelope has a member, matched to the payloadType field (exactly or
+   case-insensitively), whose value is in-toto's payload type *)
+Theorem dsse_payload_type_in_file b64json file r :
+  load_metadata b64json file = Ok r -> ld_wrapper r = DSSE ->
+  exists m k, file = Some (JObj m) /\ In (k, JStr c_PayloadType) m /\
+    find_field (struct_fields sh_envelope) k = Some (fld "payloadType" false SStr).
+Proof.
+  intros H HW. apply load_metadata_strict in H as (m & -> & H). rewrite HW in H.
+  destruct H as (_ & p & g & env & s & _ & _ & _ & HD & HT & _).
+  exists m. change sh_envelope with (SStruct (struct_fields sh_envelope)) in HD.
+  rewrite decode_struct_eq in HD.
+  destruct (decode_members false (struct_fields sh_envelope) m
+              (struct_of (struct_fields sh_envelope) (gzero (SStruct (struct_fields sh_envelope))))) as [cur'| |] eqn:EM;
+    try discriminate.
+  simpl in HD. inversion HD. subst env. clear HD.
+  assert (HL : alookup cur' k_payloadType = Some (GStr c_PayloadType)).
+  { unfold struct_str in HT. destruct (alookup cur' k_payloadType) as [[t| | | | | |]|] eqn:E;
+      try (vm_compute in HT; discriminate). subst t. reflexivity. }
+  assert (HS : forall f, In f (struct_fields sh_envelope) -> f_name f = k_payloadType -> f_shape f = SStr).
+  { intros f Hf Hn. simpl in Hf. unfold f_name, f_shape in *. destruct Hf as [<-|[<-|[<-|[]]]]; simpl in *; try reflexivity;
+      apply str_eqb_eq in Hn; vm_compute in Hn; discriminate. }
+  destruct (decode_members_string false _ _ _ HS _ _ _ EM HL) as [Hz|(k & f & Hi & Hf & Hn)].
+  - vm_compute in Hz. discriminate.
+  - exists k. split; [reflexivity|]. split; [assumption|]. rewrite Hf. f_equal.
+    pose proof (find_field_in _ _ _ Hf) as Hin. simpl in Hin. unfold f_name in *.
+    destruct Hin as [<-|[<-|[<-|[]]]]; simpl in *; try reflexivity;
+      apply str_eqb_eq in Hn; vm_compute in Hn; discriminate.
+Qed.
